@@ -564,7 +564,7 @@ where
 			)));
 		}
 		let part_change = change / num_change_outputs as u64;
-		let remainder_change = change % part_change;
+		let remainder_change = change % num_change_outputs as u64;
 
 		for x in 0..num_change_outputs {
 			// n-1 equal change_outputs and a final one accounting for any remainder
